@@ -9,6 +9,7 @@ import GeosModel.Base.Kernel
 /-! Driver for C20 (exe `drv_c20`).
   normalize   N g0 | g1 | …            -> nf0 | nf1 | … # idem=b canon=b eqx=b eqi=b      (model normal forms and the model's own oracle flags)
   normclass   N g0 | g1 | …            -> class=<hypothesis class of g0>
+  compare     P a | b                  -> sign(a.compareTo(b)) sign(b.compareTo(a)) sign(a.compareTo(a))
   construct   K kind | G g | H hull | E env | C centroid | S pos valid | B k sup… R r cx cy | M mrr | W mw
                                        -> ok | violated:<conditions>     (exact certificate checkers on the GEOS outputs)
   invariants  I kind | G g | R rev | RR revrev | N norm | CL clone | A a×4 | L l×4 | NP n×4 | NG n×4 | D d×4 | X f×6
@@ -484,11 +485,22 @@ def invariantsLine (line : String) : String :=
       verdict (bad1 ++ bad2 ++ bad3 ++ bad4)
     | _ => "parse-error"
 
+def compareLine (line : String) : String :=
+  match Driver.tokens line with
+  | "P" :: rest =>
+    match parseGroup rest with
+    | some [a, b] =>
+      let sg := fun (v : Int) => if v < 0 then "-1" else if v > 0 then "1" else "0"
+      s!"{sg (cmpG geosCfg a.g b.g)} {sg (cmpG geosCfg b.g a.g)} {sg (cmpG geosCfg a.g a.g)}"
+    | _ => "parse-error"
+  | _ => "bad-line"
+
 def handle (stream : String) : String → String :=
   match stream with
   | "normalize" => normalizeLine
   | "normclass" => classLine
   | "construct" => constructLine
+  | "compare" => compareLine
   | "invariants" => invariantsLine
   | _ => fun _ => "unknown-stream"
 
